@@ -7,7 +7,7 @@ from .c01 import ASSUME
 
 def check(ctx):
     items = [(k, tuple(sorted(p.items()))) for k, p in entries.catalogue(ctx.quick) + entries.scat_catalogue(ctx.quick)
-             if k not in ('functional', 'functional1d', 'functional-atrous')]
+             if k not in ('functional', 'functional1d', 'functional-atrous', 'functional-prepared')]
     findings, cmp_, diff, samples, counts = run_items(ctx, 'C16', [(crosslib.w_dtype, items)], min_cmp=40)
     cov = {'obligations': cmp_, 'discharged': cmp_ - diff, 'samples': samples or [{'note': 'none'}],
            'entry_points': sorted({i[0] for i in items}),
